@@ -96,6 +96,8 @@ def draw_features(ctx, base=None, allow=("subtypes", "constants", "neg", "equali
     feat["bare_pre"] = c.draw(3) == 0
     feat["nested_cond"] = c.draw(3) == 0  # or / forall inside the conditions of when effects
     feat["join_names"] = c.draw(6) == 0  # object names whose joins collide (x, x_x, x-x, ...)
+    feat["nested_numeric"] = c.draw(2) == 0  # fluent-against-constant comparisons inside nested conditions
+    feat["tiny_offsets"] = True  # ... whose constants may differ only beyond the 4th decimal (not where a domain is exported)
     feat["max_objects"] = 3 + c.draw(3) if c.draw(8) else 6 + c.draw(3)
     feat["max_actions"] = 1 + c.draw(3) if c.draw(8) else 4 + c.draw(2)
     feat["long_names"] = c.draw(12) == 0
@@ -112,6 +114,8 @@ class World:
         self.feat = feat
         self.D = G.gen_domain(t, feat, multi_agent=multi_agent)
         self.P = G.gen_problem(t, self.D, feat, agents=agents)
+        if self.D.pop("_near_dup_siblings", 0):
+            ctx.probes["domain_with_near_duplicate_sibling_conditions"] += 1
         self.objs = G.all_objects(self.D, self.P)
         lvl = ctx.s("cfg").draw(3) if noise_level is None else noise_level
         raw = G.render_domain(self.D, child_first=feat.get("child_first_types", False))
